@@ -87,7 +87,7 @@ class SimRun(Engine):
             fluents[0]["type"] = ["bool"]
         world = {"types": types, "objects": objs, "fluents": fluents}
         # initial values
-        p_undef = {"default": 0.15, "undefined": 0.45, "numeric": 0.1}[profile]
+        p_undef = {"default": 0.1, "undefined": 0.3, "numeric": 0.05}[profile]
         init = []
         rs = RefSem(world)
         for fd in fluents:
@@ -139,6 +139,7 @@ class SimRun(Engine):
             effects = []
             uncond_taken = set()   # fluent symbols with an unconditional non-bool assignment
             incdec_taken = set()
+            family = {}            # fluent symbol -> "assign" | "incdec" (first kind used in this action)
             for ei in range(ra.randint(1, 4)):
                 fd = ra.choice(fluents)
                 t = fd["type"]
@@ -158,6 +159,15 @@ class SimRun(Engine):
                     kind = "assign"
                     if t[0] in ("int", "real") and ra.random() < 0.45:
                         kind = ra.choice(["inc", "dec"])
+                    # an assignment and an increase reaching one ground fluent is a step the statement
+                    # leaves open (it is skipped, not judged): generate it only rarely
+                    fam = family.get(fd["name"])
+                    if fam is not None and ra.random() < 0.9:
+                        if fam == "assign":
+                            kind = "assign"
+                        elif t[0] in ("int", "real") and kind == "assign":
+                            kind = ra.choice(["inc", "dec"])
+                    family.setdefault(fd["name"], "assign" if kind == "assign" else "incdec")
                     if t[0] == "bool":
                         value = ["bool", ra.random() < 0.55] if ra.random() < 0.75 else g.bool_expr(1)
                     elif t[0] == "int":
